@@ -32,6 +32,9 @@ ASSUMPTIONS = [
     'listeners and handlers stay alive for the whole case: weak-reference auto-removal on garbage collection is out of scope',
     'message classes form a tree (single inheritance): ties of _mro_count between unrelated matching classes are out of scope',
     'ignore_callbacks ignores the exact class only (type(message)), as the code does; blocks are opened and closed by with statements (properly nested)',
+    'the order among handlers of equal priority is not fixed by the property: the oracle accepts any (it follows the choice the '
+    'implementation made); the model and the theorems fix it as the code does (order of first subscription of the listener), '
+    'so a change of that order is reported as a correspondence difference without a failing input',
     'scripts that recurse without bound (a handler re-broadcasting a class it receives) are excluded: the model reports fuel exhaustion, '
     'the harness a nesting guard; both are counted, not compared',
 ]
@@ -195,7 +198,7 @@ class RealRun(object):
                 h = 0 if cb[1] is not None else cb[0].h
                 f = FILTERS.index(cb[2]) if cb[2] in FILTERS else 0
                 ent.append((self.cindex[mc], h, f, cb[4]))
-            subs.append((sub.lid, ent))
+            subs.append((sub.lid, sorted(ent)))     # the order of one listener's classes is not observable with a class tree
         ign = sorted(self.cindex[c] for c, n in hub._ignore.items() for _ in range(max(n, 0)))
         return (int(hub._paused), [(m.tag, self.cindex[type(m)]) for m in hub._queue], ign, subs)
 
@@ -208,7 +211,9 @@ class RealRun(object):
             except ScriptError:
                 status = 1
         except (Diverged, RecursionError):
-            return ('diverged',)
+            return ('diverged', self.log)
+        if self.dup is not None:       # the same message object reached the same listener twice
+            self.log.append(('duplicate-delivery',) + self.dup)
         return ('ok', status, self.log, self.state())
 
 
@@ -217,13 +222,16 @@ def run_real(case):
 
 
 # ------------------------------------------------------------------ reference semantics (the oracle; independent of the Coq model)
-def reference(case):
+def reference(case, guide=None):
     """What the property says must happen, as a direct simulation:
     a broadcast goes, unless its exact class is being ignored, either to the queue (some delay block is open) or at once
     to the recipients: per subscribed listener the subscription with the most derived class among the message's ancestors,
     kept if its filter accepts, ordered by priority (high first, ties in subscription order); each handler runs to completion
     (so whatever it broadcasts is delivered before it returns).  Closing the outermost delay block - normally or by an
-    exception - delivers the queued messages once each, in order; the exception then propagates."""
+    exception - delivers the queued messages once each, in order; the exception then propagates.
+    The property leaves the order among handlers of EQUAL priority open: with `guide` (a delivery log of the
+    implementation) the simulation follows the guide's choice among the tied candidates, so that only a difference the
+    property does forbid remains a difference."""
     parents, handlers = case['parents'], case['handlers']
 
     def ancestors(c):
@@ -246,10 +254,19 @@ def reference(case):
                 h, f, p = d[min(mine, key=anc.index)]     # nearest ancestor = most derived
                 if REF_FILTERS[f](i):
                     found.append((l, h, p))
-        return [(l, h) for l, h, p in sorted(found, key=lambda x: -x[2])]
+        return sorted(found, key=lambda x: -x[2])
+
+    def in_order(todo):
+        while todo:
+            k = 0
+            if guide is not None and len(log) < len(guide) and guide[len(log)][0] == 'call':
+                tied = [j for j, x in enumerate(todo) if x[2] == todo[0][2]]
+                hit = [j for j in tied if todo[j][:2] == tuple(guide[len(log)][1:3])]
+                k = hit[0] if hit else 0
+            yield todo.pop(k)[:2]
 
     def deliver(i, c):
-        for l, h in recipients(i, c):
+        for l, h in in_order(recipients(i, c)):
             st['calls'] += 1
             if st['nest'] >= REF_GUARD or st['calls'] > REF_CALLS:
                 raise Diverged()
@@ -329,6 +346,8 @@ def log_invariants(log):
         elif ev[0] == 'ret':
             if not stack or stack.pop() != ev[1:]:
                 return 'handler return %r does not match the innermost running handler' % (ev[1:],)
+        elif ev[0] == 'duplicate-delivery':
+            return 'one message object was delivered twice to listener %r: %r' % (ev[1], ev[1:])
     return None
 
 
@@ -368,7 +387,7 @@ def dec_model(t):
             log.append({3: OPEN, 4: END, 5: CLOSE}[tag(e)])
     paused, queue, ign, subs = kids(hub)
     state = (tag(paused), [tuple(k[0] for k in kids(m)) for m in kids(queue)], sorted(k[0] for k in kids(ign)),
-             [(tag(e), [tuple(k[0] for k in kids(sb)) for sb in kids(e)]) for e in kids(subs)])
+             [(tag(e), sorted(tuple(k[0] for k in kids(sb)) for sb in kids(e))) for e in kids(subs)])
     return ('ok', tag(st), log, state)
 
 
@@ -541,7 +560,7 @@ def judge(case, real, ref, model):
         return out
     if real[0] == 'diverged':
         out.append(('oracle', {'why': 'the hub recursed without bound; the reference semantics terminates',
-                               'expected_log': ref[2]}))
+                               'expected_log': ref[2], 'impl_log_start': real[1][:60]}))
     else:
         inv = log_invariants(real[2])
         if real[3][0] != 0 or real[3][1] or real[3][2]:
@@ -555,7 +574,7 @@ def judge(case, real, ref, model):
     if model is not None:
         if model[0] == 'bad':
             out.append(('correspondence', {'why': 'model output not understood', 'model': repr(model[1])[:300]}))
-        elif model[0] != real[0] or (model[0] == 'ok' and model[1:] != real[1:]):
+        elif model[0] != real[0] or (model[0] == 'ok' and model[1:] != tuple(real[1:])):
             d = {'why': 'model and implementation differ'}
             if model[0] == 'ok' and real[0] == 'ok':
                 d.update(status={'impl': real[1], 'model': model[1]}, first_log_difference=first_diff(real[2], model[2]),
@@ -615,15 +634,54 @@ def case_from_json(j):
 
 
 def why_class(why):
-    for k in ('recursed without bound', 'while', 'does not match', 'not idle', 'exception status', 'delivery log differs'):
+    for k in ('recursed without bound', 'while', 'does not match', 'twice', 'not idle', 'exception status', 'delivery log differs'):
         if k in why:
             return k
     return why[:30]
 
 
+def reference_for(case, real, ref=None):
+    """the reference run to compare `real` with (ties of priority resolved as the implementation did, see reference)"""
+    ref = ref or reference(case)
+    if ref[0] == 'ok' and real[0] == 'ok' and ref[2] != real[2]:
+        guided = reference(case, guide=real[2])
+        if guided[0] == 'ok':
+            return guided
+    if ref[0] == 'ok' and real[0] == 'diverged':
+        # does the property allow this runaway recursion under the implementation's choice among equal priorities?
+        guided = reference(case, guide=real[1])
+        if guided[0] == 'diverged':
+            return guided
+    return ref
+
+
 def oracle_bad(case):
     ref = reference(case)
-    return ref[0] == 'ok' and any(k == 'oracle' for k, _ in judge(case, run_real(case), ref, None))
+    if ref[0] != 'ok':
+        return False
+    real = run_real(case)
+    return any(k == 'oracle' for k, _ in judge(case, real, reference_for(case, real, ref), None))
+
+
+class Failures(object):
+    """collects failures per class and hands them to R round-robin, so that the few replays the check writes show different defects"""
+
+    def __init__(self):
+        self.by_class = collections.OrderedDict()
+
+    def add(self, klass, kind, case, detail):
+        self.by_class.setdefault(klass, []).append((kind, case, detail))
+
+    def flush(self, R):
+        rows = list(self.by_class.values())
+        for i in range(max([len(r) for r in rows] or [0])):
+            for r in rows:
+                if i < len(r):
+                    R.fail(r[i][0], r[i][1], r[i][2], key=None) if r[i][0] == 'oracle' else R.fail(r[i][0], r[i][1], r[i][2])
+        self.by_class.clear()
+
+
+FAILS = Failures()
 
 
 def process(R, name, cases):
@@ -640,6 +698,14 @@ def process(R, name, cases):
             R.count(('div', enc_case(case)), nontrivial=False, stream=name, outcome='divergent')
             continue
         real = run_real(case)
+        ref = reference_for(case, real, ref)
+        if ref[0] == 'diverged':
+            stats['divergent under the tie order of the implementation (skipped)'] += 1
+            R.count(('div', enc_case(case)), nontrivial=False, stream=name, outcome='divergent')
+            if model is not None and model[0] == 'ok':
+                R.fail('correspondence', case_json(case, stream=name),
+                       {'why': 'the implementation recurses without bound where the model terminates (order among equal priorities differs)'})
+            continue
         calls, feats = features(case, ref)
         key = enc_case(case)
         R.count(key, nontrivial=calls > 0, stream=name, deliveries=min(calls, 12), handler_nesting=ref[3],
@@ -654,13 +720,14 @@ def process(R, name, cases):
             if reported[klass] <= 2:
                 if kind == 'oracle':
                     small = shrink(case, oracle_bad)
-                    js = judge(small, run_real(small), reference(small), None)
+                    r2 = run_real(small)
+                    js = judge(small, r2, reference_for(small, r2), None)
                     detail = dict(js[0][1], shrunk_from=case_json(case)) if js else detail
-                    R.fail('oracle', case_json(small, stream=name), detail, key=None)
+                    FAILS.add(klass, 'oracle', case_json(small, stream=name), detail)
                 else:
-                    R.fail('correspondence', case_json(case, stream=name), detail)
+                    FAILS.add(klass, 'correspondence', case_json(case, stream=name), detail)
             elif reported[klass] <= 10:
-                R.fail(kind, case_json(case, stream=name), {'why': detail.get('why')}, key=None)
+                FAILS.add(klass, kind, case_json(case, stream=name), {'why': detail.get('why')})
     return stats
 
 
@@ -735,16 +802,20 @@ def stream_find_handlers(R):
                     near = [a for a in anc if a in d]
                     if near and REF_FILTERS[d[near[0]][1]](ident):
                         want.append((l, d[near[0]][0], d[near[0]][2]))
+                prio_of = {(l, h): p for l, h, p in want}
                 want = [(l, h) for l, h, p in sorted(want, key=lambda x: -x[2])]
                 tb = [(l, [(cc,) + v for cc, v in d.items()]) for l, d in table.items()]
                 R.count(('fh', tuple(parents), repr(tb), c, ident), nontrivial=len(want) > 0, stream='find_handlers', recipients=len(want))
                 lines.append(enc((2, [(0, list(parents)), (0, [(l, [(0, list(e)) for e in ent]) for l, ent in tb]), ident, c])))
                 expect.append(impl)
                 keys.append({'stream': 'find_handlers', 'parents': list(parents), 'table': tb, 'message': [ident, c]})
-                if impl != want:
+                # the property: the right (listener, handler) pairs, each once, priorities never increasing (ties: any order)
+                ok = sorted(impl) == sorted(want) and all(prio_of[a] >= prio_of[b] for a, b in zip(impl, impl[1:]))
+                if not ok:
                     bad += 1
                     if bad <= 3:
-                        R.fail('oracle', keys[-1], {'why': '_find_handlers differs from the property', 'impl': impl, 'expected': want}, key=None)
+                        R.fail('oracle', keys[-1], {'why': '_find_handlers differs from the property', 'impl': impl,
+                                                    'expected (ties in any order)': want}, key=None)
     if R.model_available:
         bad = 0
         for k, impl, t in zip(keys, expect, R.model(lines)):
@@ -779,10 +850,14 @@ def run(R):
               'semantics makes at least one delivery; cases whose reference run nests more than %d handler calls or makes more than %d are '
               'divergent and skipped' % (REF_GUARD, REF_CALLS))
     R.exhaustive = True
-    stream_divergent(R)
-    stream_find_handlers(R)
-    stream_exhaustive(R)
-    stream_random(R)
+    FAILS.by_class.clear()
+    try:
+        stream_divergent(R)
+        stream_find_handlers(R)
+        stream_exhaustive(R)
+        stream_random(R)
+    finally:
+        FAILS.flush(R)
 
 
 def replay_find_handlers(R, case):
@@ -803,12 +878,14 @@ def replay_find_handlers(R, case):
         near = [a for a in anc if a in d]
         if near and REF_FILTERS[d[near[0]][1]](ident):
             want.append((l, d[near[0]][0], d[near[0]][2]))
+    prio_of = {(l, h): p for l, h, p in want}
     want = [(l, h) for l, h, p in sorted(want, key=lambda x: -x[2])]
+    ok = sorted(impl) == sorted(want) and all(prio_of[a] >= prio_of[b] for a, b in zip(impl, impl[1:]))
     model = None
     if R.model_available:
         t = R.model([enc((2, [(0, list(parents)), (0, [(l, [(0, list(e)) for e in ent]) for l, ent in tb]), ident, c]))])[0]
         model = [tuple(x[0] for x in kids(e)) for e in kids(t)]
-    return {'case': case, 'implementation': impl, 'expected': want, 'model': model, 'violates': impl != want}
+    return {'case': case, 'implementation': impl, 'expected (ties in any order)': want, 'model': model, 'violates': not ok}
 
 
 def replay(R, case):
@@ -816,7 +893,8 @@ def replay(R, case):
     if case.get('stream') == 'find_handlers':
         return replay_find_handlers(R, case)
     c = case_from_json(case)
-    real, ref = run_real(c), reference(c)
+    real = run_real(c)
+    ref = reference_for(c, real)
     model = dec_model(R.model([enc_case(c)])[0]) if R.model_available else None
     js = judge(c, real, ref, model)
     return {'case': case_json(c), 'implementation': real, 'reference': ref, 'model': model,
